@@ -189,6 +189,7 @@ func c03Concurrent(c *Ctx) {
 	if os.Getenv("VERIF_WIDE") != "1" {
 		c.Info["concurrent_part"] = "skipped: the wide instrumentation did not build on this tree (see check.sh)"
 		c.Note("concurrent part skipped: no wide instrumentation")
+		c.Exhaustive = false
 		return
 	}
 	hooks := vatomic.Hooks
